@@ -88,7 +88,10 @@ def activate (s : Session) (sp : Bool) (block : Bytes) (now : Nat) : Session × 
   let localQ := Outbound.maxInflight
   match (iterEncoded block).foldl (connackStep localQ)
       (.ok (localQ, localQ, none, none, s.rt.configuredKeepaliveMs, none)) with
-  | .error e => (s.handleDisconnect, .error e)
+  | .error e =>
+    -- ghost: the reset above (if any) stays although the CONNACK is rejected (finding F19)
+    let s := { s with data := { s.data with halfReset := s.data.halfReset || !sp } }
+    (s.handleDisconnect, .error e)
   | .ok (sq, msq, mq, mps, ka, cid) =>
     let rt := s.rt
     let rt := { rt with sessionResumed := sp, keepaliveMs := ka,
@@ -96,7 +99,8 @@ def activate (s : Session) (sp : Bool) (block : Bytes) (now : Nat) : Session × 
                         maxSendQuota := msq, maxQos := mq, maximumPacketSize := mps,
                         deficit := decide (sq < s.data.outbound.inflightPublishes) }
     let s := { s with rt := rt, clientId := cid.getD s.clientId,
-                      data := { s.data with sessionPresent := true } }
+                      data := { s.data with sessionPresent := true, everAccepted := true, halfReset := false,
+                                            assignedId := cid.or s.data.assignedId } }
     let rt := (s.rt.noteOutboundActivity now)
     ({ s with rt := { rt with pingTimeout := none } }, .ok ())
 
